@@ -91,7 +91,7 @@ impl Prop for C17 {
     }
     fn budget(&self, tier: Tier) -> Budget {
         match tier {
-            Tier::Quick => Budget { cases: 16_000, max_tape: 640 },
+            Tier::Quick => Budget { cases: 32_000, max_tape: 640 },
             Tier::Thorough => Budget { cases: 320_000, max_tape: 1024 },
         }
     }
